@@ -9,6 +9,6 @@ def tab(which):
 head = open(os.path.join(V, "docsrc", "DESIGN_head.md")).read()
 sec4 = open(os.path.join(V, "docsrc", "DESIGN_sec4.md")).read()
 tail = open(os.path.join(V, "docsrc", "DESIGN_tail.md")).read()
-tail = tail.replace("@@FINDINGS@@", tab("findings")).replace("@@SEEDED@@", tab("seeded"))
+tail = tail.replace("@@FINDINGS@@", tab("findings")).replace("@@SEEDED@@", tab("seeded")).replace("@@BENIGN@@", tab("benign"))
 open(os.path.join(V, "DESIGN.md"), "w").write(head.rstrip() + "\n\n" + sec4.rstrip() + "\n\n" + tail)
 print("DESIGN.md written")
